@@ -11,7 +11,7 @@ from checkconf import CHECKS  # noqa: E402
 
 TEXT = {
     "C01": ("reference model + differential (Go regexp) property-based testing",
-            "Generated (program, text) pairs compared with an independent continuation-passing reference matcher, and with Go's regexp on the regular subset; exploration, not proof.",
+            "A small-scope exhaustive enumeration (4 891 programs x 34 texts; thorough: 126 765 programs) and generated (program, text) pairs, compared with an independent continuation-passing reference matcher and with Go's regexp on the regular subset; exploration, not proof.",
             "trusts the reference semantics of DESIGN.md section 4 and Go's regexp; explores programs of IR depth <= 3 on texts <= 14 bytes"),
     "C02": ("reference model property-based testing of variable bindings",
             "Generated programs biased to captures under alternation / optional loops / calls; the environment of the reference matcher at the successful continuation is compared with Match.Variables.",
@@ -38,8 +38,8 @@ TEXT = {
             "Accepted programs from the widest generator and accepted mutants are run on texts, all prefixes, the empty text and files; any panic is a violation.",
             "zero divisors (K1) and branch-typed variables (K2) are excluded by construction and probed"),
     "C10": ("bounded exhaustive enumeration + random deepening with a step-count oracle",
-            "All programs of a nullable-material grammar to nesting depth 3 (4 in thorough) on all texts of length <= 3 over {a,b,\\n}: VM instructions per Run stay under a budget orders of magnitude above the observed maximum.",
-            "uses the verif step-counter hook; budget 5e6 instructions"),
+            "All programs of a nullable-material grammar (18 atoms, 11 loop heads, guarded recursion) to nesting depth 2 plus a sample of depth 3 (thorough: depth 4 complete) on all texts of length <= 3 over {a,b,\\n}: VM instructions per Run stay under a budget orders of magnitude above the observed maximum.",
+            "uses the verif step-counter hook; budget 1e6 instructions in the enumeration (observed maximum 1 568), 5e6 in the random part"),
     "C11": ("exhaustive operator table + type-directed expression generation against a reference evaluator",
             "Every operator x boundary operand pair, and random expression trees rendered with full and minimal parentheses, observed through transforms and predicates.",
             "trusts the harness evaluator written from LanguageDetails.md"),
@@ -62,7 +62,7 @@ TEXT = {
             "Json()/FormattedJson() decode with encoding/json, are equal as documents and equal the in-memory matches.",
             "exact string equality only for valid UTF-8"),
     "C18": ("cross-product testing of the built CLI against the library",
-            "Flag vectors x programs x file sets run as subprocesses of the freshly built binary; exit status, stdout JSON, JSON files and file effects compared with the library.",
+            "Flag vectors (7 680 in the thorough tier, 800 sampled in quick) x programs x file sets x 2 fixtures run as subprocesses of the freshly built binary; exit status, stdout JSON, JSON files (also pre-existing longer ones) and file effects compared with the library.",
             "local filesystem; subprocess of the freshly built binary"),
     "C19": ("randomised concurrent job sets under the race detector with a sequential oracle",
             "Generated goroutine job sets of Compile/Run calls, repeated under -race with GOMAXPROCS in {2,16}; results equal sequential results and no race is reported.",
